@@ -2,6 +2,8 @@
 children in the same positions with the same attributes; (R01.2) no silently truncating integer cast in the
 simplifier; (R01.3) the rule dispatcher hands each rule the attributes of the node it matched."""
 from ..tree import *  # noqa
+from .. import norm as norm_
+from ..flow import Index
 from ..tables import *  # noqa
 from .. import intcast
 
@@ -179,26 +181,60 @@ def r014(ctx):
             ctx.inst("ANCHOR", "missing:" + fname, False, None, "rule function %s not found" % fname, nontrivial=False)
             continue
         f = fl[0]
-        found = False
-        for x in walk(f["body"]):
-            if x.get("k") == "if" and peel(x["cond"]).get("k") == "letexpr" and "else" in x and "to_u64" in show(peel(x["cond"])["init"]):
-                # inside the then-branch: `if by >= width { A } ...`
-                ge = None
-                for y in walk(x["then"]):
-                    if y.get("k") == "if" and show(peel(y["cond"])).replace(" ", "") in ("(by>=width)", "(width<=by)"):
-                        ge = y
-                        break
-                if ge is None:
-                    continue
-                found = True
-                n += 1
-                a = show(peel_block(ge["then"])).replace(" ", "")
-                b = show(peel_block(x["else"])).replace(" ", "")
-                ctx.inst("R01.4", "%s:overflow-branch-agrees" % fname, a == b, x["else"]["sp"],
-                         "%s rewrites a shift by `amount >= width` to `%s` but a shift by an amount too large for the integer type to `%s`: both shift everything out, one of the two is wrong" % (fname, a[:90], b[:90]),
-                         sample={"fn": fname, "amount>=width": a[:80], "amount too large": b[:80]})
-        if not found:
-            ctx.inst("R01.4", "%s:shape" % fname, False, f["span"], "UNRECOGNISED: %s no longer has the shape `if let Some(by) = ..to_u64().. { if by >= width {..} .. } else {..}`" % fname)
+        ix = Index(f["body"])
+        p_width = (param_ids(f) + [None] * 4)[3]         # (ctx, a, b, width)
+
+        def is_conversion(e, depth=0):
+            """the expression converts the constant amount to a machine integer (to_u64 / try_from), possibly through lets"""
+            e = resolve(e)
+            for y in walk(e):
+                if y.get("k") == "mcall" and y["name"] in ("to_u64", "to_u32", "to_usize"):
+                    return True
+                if y.get("k") == "call" and (callee(y) or "").endswith("try_from"):
+                    return True
+                if y.get("k") == "local" and y is not e and depth < 3 and y["id"] in LET_INITS and is_conversion(LET_INITS[y["id"]], depth + 1):
+                    return True
+            return False
+
+        def none_pat(p_):
+            while p_.get("k") in ("pref", "pderef"):
+                p_ = p_["pat"]
+            return p_.get("k") in ("pvariant", "pconst") and p_.get("path", "").endswith(("Option::None",)) or (p_.get("k") == "pvariant" and p_["path"].endswith("Result::Err"))
+        table = norm_.function_results(f, ix)
+        overflow, ge = [], []
+        for conds, leaf in table:
+            if leaf.get("k") == "def" and (leaf.get("path") or "").endswith("Option::None"):
+                continue          # the rule does not apply (returns None)
+            is_over = is_ge = False
+            for c_, pol in conds:
+                if c_.get("k") == "letexpr" and not pol and is_conversion(c_["init"]):
+                    is_over = True
+                if c_.get("k") == "armpat" and pol and none_pat(c_["pat"]) and is_conversion(c_["scrut"]):
+                    is_over = True
+                if c_.get("k") == "binary" and pol and c_["op"] in (">=", "<="):
+                    big, small = (c_["l"], c_["r"]) if c_["op"] == ">=" else (c_["r"], c_["l"])
+                    if is_local(small, p_width) and peel(big).get("k") == "local":
+                        is_ge = True
+                if c_.get("k") == "binary" and not pol and c_["op"] in ("<", ">"):
+                    small, big = (c_["l"], c_["r"]) if c_["op"] == "<" else (c_["r"], c_["l"])
+                    if is_local(big, p_width) and peel(small).get("k") == "local":
+                        is_ge = True
+            if is_over:
+                overflow.append(leaf)
+            elif is_ge:
+                ge.append(leaf)
+        has_conv = is_conversion(f["body"])
+        if overflow and ge:
+            n += 1
+            ta = sorted({show(x).replace(" ", "") for x in ge})
+            tb = sorted({show(x).replace(" ", "") for x in overflow})
+            ctx.inst("R01.4", "%s:overflow-branch-agrees" % fname, ta == tb and len(ta) == 1, overflow[0].get("sp"),
+                     "%s rewrites a shift by `amount >= width` to `%s` but a shift by an amount too large for the integer type to `%s`: both shift everything out, one of the two is wrong" % (fname, ta[0][:90], tb[0][:90]),
+                     sample={"fn": fname, "amount>=width": ta[0][:80], "amount too large": tb[0][:80]})
+        elif has_conv:
+            ctx.inst("R01.4", "%s:shape" % fname, False, f["span"], "UNRECOGNISED: %s converts the shift amount but the results for `conversion failed` (%d found) and `amount >= width` (%d found) could not both be identified" % (fname, len(overflow), len(ge)))
+        else:
+            ctx.skipped("R01.4 %s: the function does not convert the shift amount itself" % fname)
     ctx.floor("R01.4", "shift rules with an overflow branch", n, 3)
 
 
